@@ -221,6 +221,10 @@ type FrameObs struct {
 	Written   []B    `json:"written"`
 	Overlap   bool   `json:"overlap"` // two handler callbacks of this connection ran at the same time
 	WriteFault bool  `json:"writeFault"` // the transport failed a write: the outbound stream may end early (a prefix)
+	// Stopped (k > 0): the application stopped the handler while message k was inside its callback. The property does not speak
+	// about a stopped handler: the first k messages were delivered as sent; whatever is delivered after them is still some of
+	// the later messages, each at most once, in the order sent, one at a time.
+	Stopped int `json:"stopped"`
 }
 
 type rec struct {
@@ -503,10 +507,8 @@ func RunFraming(sc *FScenario) ([]FrameObs, string) {
 		if sc.Conns[i].Dies != "" && len(o.Delivered) < len(o.Sent) {
 			o.Sent = o.Sent[:len(o.Delivered)]
 		}
-		// ... and likewise about messages queued behind a stop of the handler (but the message being dispatched was delivered)
-		if k := sc.Conns[i].StopAt; k > 0 && len(o.Delivered) >= k && len(o.Delivered) < len(o.Sent) {
-			o.Sent = o.Sent[:len(o.Delivered)]
-		}
+		// (messages queued behind a stop of the handler may or may not be delivered: judged by the specification, see Stopped)
+		o.Stopped = sc.Conns[i].StopAt
 		if o.Delivered == nil {
 			o.Delivered = []B{}
 		}
